@@ -93,7 +93,7 @@ pub fn spaces(tier: Tier) -> Vec<Space<'static>> {
     // all four text/binary configurations
     {
         let mut strs: Vec<String> = univ::sstr().clone();
-        for s in ["a b", "a!", "a ", "a\u{1f}", "foo", "foo bar", "foo!", "a#", "a\"b", "ab ", " a"] {
+        for s in ["a b", "a!", "a ", "a\u{1f}", "foo", "foo bar", "foo!", "a#", "a\"b", "ab ", " a", "a/b", "a/", "</script>"] {
             strs.push(s.to_string());
         }
         let docs2 = docs(strs.iter().flat_map(|s| [RVal::Str(s.clone()), RVal::Arr(vec![RVal::Str(s.clone())])]).collect());
@@ -111,6 +111,17 @@ pub fn spaces(tier: Tier) -> Vec<Space<'static>> {
                     match guard(|| jsonb::compare(a, b)) {
                         Ok(Ok(o)) if o == exp => {}
                         other => acc.vio("compare-strings:differs-from-documented-order", || json!({"cfg": cfg, "a": d.texts[i], "b": d.texts[j], "expected": format!("{:?}", exp), "observed": format!("{:?}", other)})),
+                    }
+                }
+                // the same pair with the text side(s) in two other spellings (all \\uXXXX; short escapes incl. \\/)
+                for style in [1u8, 2] {
+                    let (si, sj) = (refmodel::text::print_styled(&d.vals[i], style), refmodel::text::print_styled(&d.vals[j], style));
+                    for (cfg, a, b) in [("styled-text,bin", si.as_bytes(), &d.bytes[j][..]), ("bin,styled-text", &d.bytes[i][..], sj.as_bytes()), ("styled-text,text", si.as_bytes(), tj)] {
+                        acc.eval();
+                        match guard(|| jsonb::compare(a, b)) {
+                            Ok(Ok(o)) if o == exp => {}
+                            other => acc.vio("compare-strings:differs-from-documented-order:escaped-spelling", || json!({"cfg": cfg, "style": style, "a": si, "b": sj, "expected": format!("{:?}", exp), "observed": format!("{:?}", other)})),
+                        }
                     }
                 }
             }
